@@ -1,8 +1,8 @@
 package main
 
 import (
-	"go/token"
 	"fmt"
+	"go/token"
 	"os"
 	"sort"
 	"strings"
@@ -237,8 +237,8 @@ func ruleEval(c *Ctx, mode string) *RuleResult {
 
 	// ---- cases without sub-results that matter: run per value atom
 	type simple struct {
-		nt    string
-		check func(a Atoms, o evalOutcome) string
+		nt     string
+		check  func(a Atoms, o evalOutcome) string
 		ownErr bool
 		expref bool
 	}
